@@ -2,7 +2,7 @@ import Driver.RepoTraceIO
 /-!
 Driver for C11 (stream: harness/main/c11.go). One case = one `restic backup` run, complete,
 cut at a crash point, with a persistent backend error, or cancelled, or with a persistent Load error. Records:
-  mode <complete|crash|fail|cancel|loadfail> <at> <n>
+  mode <complete|crash|fail|cancel|loadfail|lostreply> <at> <n>   (lostreply: the at-th Save is stored, then reports an error, once)
   last <kind> <count>
   r0pack / r0index / r0snap        repository before the run
   ev w <event>                     recorded backend trace
@@ -53,6 +53,8 @@ def handleC11 (c : Case) : Verdict :=
           else if !snapsOK s1 then "snapshot-refers-to-unindexed-data"
           else "old-snapshot-gone"
         some (s!"C11:{mode}:state-inconsistent:{why}-after-{last}", "abstract check on the decoded backend content")
+      else if exit0 && s1.snaps.length ≤ r0.snaps.length then
+        some (s!"C11:{mode}:success-reported-without-new-snapshot-after-{last}", "backup exit code 0 but no new snapshot file exists")
       else if complete && !exit0 then
         some ("C11:complete:backup-without-fault-fails", (c.find "res").map (fun r => (unhexStr (r.getD 3 "-")).getD "?") |>.getD "")
       else none
